@@ -637,6 +637,18 @@ that expressible: `none` = the position is skipped, the buffer keeps its byte. -
 def writeMasked (buf : Bytes) (off : Nat) (span : List (Option UInt8)) : Bytes :=
   writeAt buf off ((span.zipIdx).map fun (o, i) => o.getD (buf.getD (off + i) 0))
 
+/-- the primitives at the level of what they actually write, with the admission
+predicate next to them. -/
+structure MaskedLib (β : Type) where
+  adm : Obj β → Bool
+  span : Obj β → List (Option UInt8)
+
+/-- what the refusal in `admissibleRR` (`writesItsIPv4`) establishes: whatever
+the pooled packer admits is packed by a primitive that writes every byte it
+accounts for. -/
+def AdmitsOnlyFullWriters {β : Type} (ml : MaskedLib β) : Prop :=
+  ∀ o, ml.adm o = true → ∀ x ∈ ml.span o, x.isSome = true
+
 /-- the span as a fresh zeroed buffer shows it (what `dns.Msg.Pack` returns). -/
 def spanInFresh (span : List (Option UInt8)) : Bytes := span.map fun o => o.getD 0
 
